@@ -77,13 +77,13 @@ def _alarm(_sig, _frm):
 
 def _with_timeout(seconds, fn):
     """Runs fn(); a call that does not return within `seconds` raises _Timeout (non-termination is a violation)."""
-    old = signal.signal(signal.SIGALRM, _alarm)
-    signal.setitimer(signal.ITIMER_REAL, seconds)
+    old = signal.signal(signal.SIGPROF, _alarm)
+    signal.setitimer(signal.ITIMER_PROF, seconds)  # CPU time of this process: robust against a loaded machine
     try:
         return fn()
     finally:
-        signal.setitimer(signal.ITIMER_REAL, 0)
-        signal.signal(signal.SIGALRM, old)
+        signal.setitimer(signal.ITIMER_PROF, 0)
+        signal.signal(signal.SIGPROF, old)
 
 
 # =============================================================================================
@@ -276,7 +276,7 @@ def _run_compile(case):
             return Res(skipped=True, nontrivial=False)  # documented: required count too small for this unitary
         raise
     except _Timeout:
-        return bad(f"optimize_for_target_gateset did not terminate within 120 s: {desc}", kind="compile_timeout")
+        return bad(f"optimize_for_target_gateset did not terminate within 120 s of CPU time: {desc}", kind="compile_timeout")
     # input unchanged
     if circuit != snapshot or repr(circuit) != snap_repr:
         return bad(f"input circuit was modified: {desc}", kind="input_modified")
@@ -436,14 +436,990 @@ def _run_membership(case):
     return good(nontrivial=True, accepted=int(want), rejected=int(not want))
 
 
+
+# =============================================================================================
+# (b) routing
+# =============================================================================================
+
+_B = {}
+
+
+def _atlas(nmin, nmax):
+    """All connected graphs with nmin..nmax nodes up to isomorphism (networkx graph atlas), as (n, edge list)."""
+    key = ("atlas", nmin, nmax)
+    if key not in _B:
+        out = []
+        for G in nx.graph_atlas_g():
+            n = G.number_of_nodes()
+            if nmin <= n <= nmax and n >= 2 and nx.is_connected(G):
+                out.append((n, tuple(sorted(tuple(sorted(e)) for e in G.edges()))))
+        _B[key] = out
+    return _B[key]
+
+
+def _directed_variants(nmax):
+    """Paths and stars on 2..nmax nodes with every edge oriented ->, <- or <-> ((n, arcs) with arcs ordered pairs)."""
+    out = []
+    seen = set()
+    for n in range(2, nmax + 1):
+        shapes = [[(i, i + 1) for i in range(n - 1)]]
+        if n >= 4:
+            shapes.append([(0, i) for i in range(1, n)])
+        for edges in shapes:
+            for orient in itertools.product((0, 1, 2), repeat=len(edges)):
+                arcs = []
+                for (u, v), o in zip(edges, orient):
+                    if o in (0, 2):
+                        arcs.append((u, v))
+                    if o in (1, 2):
+                        arcs.append((v, u))
+                key = (n, tuple(sorted(arcs)))
+                if key not in seen:
+                    seen.add(key)
+                    out.append(key)
+    return out
+
+
+def _phys(style, i):
+    """Node i of a graph as a physical qubit: style 0 LineQubit, style 1 GridQubit with a different sort order."""
+    return cirq.LineQubit(i) if style == 0 else cirq.GridQubit(i % 2, i // 2)
+
+
+def _logical(style, j):
+    return cirq.LineQubit(j) if style == 0 else cirq.NamedQubit(f"l{j}")
+
+
+def _device_graph(n, edges, directed, style):
+    G = nx.DiGraph() if directed else nx.Graph()
+    G.add_nodes_from(_phys(style, i) for i in range(n))
+    G.add_edges_from((_phys(style, u), _phys(style, v)) for u, v in edges)
+    return G
+
+
+def _route_letters(k, seed):
+    """Placed routing letters on k logical qubit indices: (name, kind, qubit indices)."""
+    L = []
+    for i, j in itertools.combinations(range(k), 2):
+        L.append((f"CZ({i},{j})", "CZ", (i, j)))
+        L.append((f"CNOT({i},{j})", "CNOT", (i, j)))
+        L.append((f"CNOT({j},{i})", "CNOT", (j, i)))
+        L.append((f"SWAP({i},{j})", "SWAP", (i, j)))
+        L.append((f"ISWAP^g({i},{j})", "ISWAPg", (i, j)))
+    L.append(("H(0)", "H", (0,)))
+    L.append((f"H({k - 1})", "H", (k - 1,)))
+    L.append(("measure(all)", "M", tuple(range(k))))
+    return L
+
+
+def _mk_op(kind, qs, seed):
+    g = core.generic(seed)
+    if kind == "CZ":
+        return cirq.CZ(*qs)
+    if kind == "CNOT":
+        return cirq.CNOT(*qs)
+    if kind == "SWAP":
+        return cirq.SWAP(*qs)
+    if kind == "ISWAPg":
+        return (cirq.ISWAP ** g)(*qs)
+    if kind == "H":
+        return cirq.H(*qs)
+    if kind == "M":
+        return cirq.measure(*qs)
+    raise core.HarnessError(kind)
+
+
+_PATTERN_KINDS = ("CNOT", "ISWAPg", "CZ", "SWAP")
+
+
+def _patterns(maxlen, kmax):
+    """Canonical (first-appearance labelled) sequences of ORDERED logical pairs, length 1..maxlen, <= kmax qubits."""
+    key = ("pat", maxlen, kmax)
+    if key in _B:
+        return _B[key]
+    out = []
+
+    def rec(seq, used):
+        if seq:
+            out.append(tuple(seq))
+        if len(seq) == maxlen:
+            return
+        cand = list(range(min(used + 2, kmax)))
+        for i in cand:
+            for j in cand:
+                if i == j:
+                    continue
+                # first-appearance canonical form: a new label must be the smallest unused one, introduced in order
+                new = [x for x in (i, j) if x >= used]
+                if new and new != list(range(used, used + len(new))):
+                    continue
+                rec(seq + [(i, j)], max(used, i + 1, j + 1))
+
+    rec([], 0)
+    out.sort(key=lambda s: (len(s), s))
+    _B[key] = out
+    return out
+
+
+def _marker(seed):
+    return E.generic_unitary(2, seed + 77)
+
+
+def _route_unitary(ops, wires, seed):
+    """Unitary of a list of ops on `wires`; measurements are replaced by a generic 1-qubit marker on each measured qubit."""
+    n = len(wires)
+    shape = (2,) * n
+    idx = {q: i for i, q in enumerate(wires)}
+    U = np.eye(2 ** n, dtype=np.complex128)
+    mk = _marker(seed)
+    for op in ops:
+        if cirq.is_measurement(op):
+            for q in op.qubits:
+                U = E.embed(mk, [idx[q]], shape) @ U
+        else:
+            U = E.embed(_u(op), [idx[q] for q in op.qubits], shape) @ U
+    return U
+
+
+def _check_routing(G, directed, circuit, la, tag, mapper, mapper_desc, seed, n_logical_2q):
+    """Runs RouteCQC and checks the routing clause of the property; returns Res."""
+    router = cirq.RouteCQC(G)
+    snap = circuit.copy()
+    desc = (f"graph nodes={sorted(G.nodes)} edges={sorted(G.edges)} directed={directed} lookahead_radius={la} "
+            f"tag_inserted_swaps={tag} mapper={mapper_desc}\ncircuit:\n{circuit}")
+    try:
+        routed, imap, smap = _with_timeout(60, lambda: router.route_circuit(
+            circuit, lookahead_radius=la, tag_inserted_swaps=tag, initial_mapper=mapper))
+    except _Timeout:
+        return bad(f"route_circuit did not terminate within 60 s of CPU time: {desc}", kind="route_timeout")
+    except IndexError as e:
+        return bad(f"route_circuit raised IndexError ({e}) on a routable input: {desc}", kind="route_indexerror")
+    if circuit != snap:
+        return bad(f"route_circuit modified its input: {desc}", kind="route_input_modified")
+    desc += f"\nrouted:\n{routed}\ninitial_map={imap}\nswap_map={smap}"
+    # initial map: injective, covers the circuit's qubits, lands on device nodes
+    if not set(circuit.all_qubits()) <= set(imap.keys()):
+        return bad(f"initial map does not cover the circuit's qubits: {desc}", kind="initial_map")
+    if len(set(imap.values())) != len(imap) or not set(imap.values()) <= set(G.nodes):
+        return bad(f"initial map is not an injection into the device nodes: {desc}", kind="initial_map")
+    # swap map: a permutation of the mapped physical qubits
+    if set(smap.keys()) != set(imap.values()) or set(smap.values()) != set(imap.values()):
+        return bad(f"swap map is not a permutation of the mapped physical qubits: {desc}", kind="swap_map")
+    # every >=2-qubit non-measurement op on a device edge (arc direction respected for digraphs)
+    nswaps = 0
+    for op in routed.all_operations():
+        if not set(op.qubits) <= set(imap.values()):
+            return bad(f"routed op {op!r} uses a qubit outside the mapped device qubits: {desc}", kind="off_device")
+        if len(op.qubits) >= 2 and not cirq.is_measurement(op):
+            if len(op.qubits) != 2 or not G.has_edge(op.qubits[0], op.qubits[1]):
+                return bad(f"routed op {op!r} is not on a device edge: {desc}", kind="not_on_edge")
+        if cirq.RoutingSwapTag() in op.tags:
+            nswaps += 1
+    # U(routed) == P(swap_map) . U(circuit mapped by initial_map)
+    wires = sorted(imap.values())
+    mapped_ops = [op.transform_qubits(imap) for op in circuit.all_operations()]
+    Uref = _route_unitary(mapped_ops, wires, seed)
+    Ugot = _route_unitary(list(routed.all_operations()), wires, seed)
+    widx = {q: i for i, q in enumerate(wires)}
+    perm = [widx[smap[q]] for q in wires]
+    P = E.permute_wires(perm, (2,) * len(wires))
+    if not E.eq_up_to_phase(P @ Uref, Ugot, TOL):
+        return bad(f"routed circuit is not equal to the mapped input followed by the reported permutation: {desc}",
+                   kind="route_not_equivalent")
+    # measurements: same multiset of measured (physical) qubits, keys kept unless the documented split applied
+    mq_ref = sorted(q for op in mapped_ops if cirq.is_measurement(op) for q in op.qubits)
+    # (a measured logical qubit may have been moved by swaps before the measurement: compare counts only)
+    mq_got = [q for op in routed.all_operations() if cirq.is_measurement(op) for q in op.qubits]
+    if len(mq_ref) != len(mq_got):
+        return bad(f"number of measured qubits changed: {desc}", kind="route_measurement")
+    # routed_circuit_with_mapping agrees with the reported swap map (tagged swaps, undirected swaps only)
+    if tag and all(isinstance(op.gate, cirq.SwapPowGate) for op in routed.all_operations() if cirq.RoutingSwapTag() in op.tags):
+        viz = cirq.routed_circuit_with_mapping(routed, imap)
+        last = None
+        for op in viz.all_operations():
+            if type(op.gate).__name__ == "_SwapPrintGate":
+                last = op
+        if last is None:
+            return bad(f"routed_circuit_with_mapping produced no mapping column: {desc}", kind="viz")
+        inv = {v: k for k, v in imap.items()}
+        for pos, (content_phys, logical) in zip(last.qubits, last.gate.qubits):
+            # `content_phys` = physical qubit whose initial content now sits at `pos`
+            if smap[content_phys] != pos or inv[content_phys] != logical:
+                return bad(f"routed_circuit_with_mapping disagrees with the swap map at {pos}: shows ({content_phys},{logical}): "
+                           f"{desc}", kind="viz")
+    return good(nontrivial=n_logical_2q > 0, routed=1, inserted_swaps_tagged=nswaps,
+                with_swaps=int(len(list(routed.all_operations())) > len(list(circuit.all_operations()))))
+
+
+def _placements(n, k, limit=120):
+    """Every injective placement of k logical indices into n nodes when there are <= limit, else the placements of the
+    canonical logical qubit 0 on every node (rest filled in node order)."""
+    total = 1
+    for i in range(k):
+        total *= n - i
+    if total <= limit:
+        return list(itertools.permutations(range(n), k))
+    out = []
+    for v in range(n):
+        rest = [w for w in range(n) if w != v]
+        out.append(tuple([v] + rest[:k - 1]))
+    return out
+
+
+def _valid_unpadded(n, edges, placement, pairs):
+    """Initial-mapper precondition: interacting logical qubits lie in one component of the induced device subgraph."""
+    H = nx.Graph()
+    H.add_nodes_from(placement)
+    H.add_edges_from((u, v) for u, v in edges if u in placement and v in placement)
+    comp = {}
+    for ci, c in enumerate(nx.connected_components(H)):
+        for v in c:
+            comp[v] = ci
+    return all(comp[placement[i]] == comp[placement[j]] for i, j in pairs)
+
+
+def _hardcoded(n, k, placement, pad, style):
+    m = {_logical(style, j): _phys(style, placement[j]) for j in range(k)}
+    if pad:
+        rest = [v for v in range(n) if v not in placement]
+        for t, v in enumerate(rest):
+            m[_logical(style, k + t)] = _phys(style, v)
+    return m
+
+
+def _graph_of(case_graph):
+    kind, gi = case_graph
+    if kind == "u":
+        n, edges = _B["graphs"][gi]
+        return n, edges, False
+    n, arcs = _B["digraphs"][gi]
+    return n, arcs, True
+
+
+def _init_b(tier):
+    if _B.get("tier") == tier:
+        return
+    _B["tier"] = tier
+    _B["graphs"] = _atlas(2, 6 if tier == "thorough" else 5)
+    _B["digraphs"] = _directed_variants(5 if tier == "thorough" else 4)
+
+
+def _run_route_letters(case):
+    # case = (graph ref, k, seq of letter indices, mapper id, la, tag)
+    gref, k, seq, mid, la, tag = case
+    seed = core.seed_from_env()
+    n, edges, directed = _graph_of(gref)
+    style = gref[1] % 2
+    G = _device_graph(n, edges, directed, style)
+    L = _route_letters(k, seed)
+    lq = [_logical(style, j) for j in range(k)]
+    ops = [_mk_op(L[i][1], [lq[t] for t in L[i][2]], seed) for i in seq]
+    circuit = cirq.Circuit(ops)
+    # documented rejection: intermediate >2-qubit measurements are split only with the default key (we use it)
+    if mid == 0:
+        mapper, mdesc = None, "default LineInitialMapper"
+    else:
+        m = _hardcoded(n, k, tuple(range(k)) if mid == 1 else tuple(range(n - 1, n - 1 - k, -1)), True, style)
+        mapper, mdesc = cirq.HardCodedInitialMapper(m), f"HardCoded{m}"
+    n2 = sum(1 for i in seq if len(L[i][2]) == 2)
+    return _check_routing(G, directed, circuit, la, bool(tag), mapper, mdesc, seed, n2)
+
+
+def _run_route_placements(case):
+    # case = (graph ref, k, pattern index, placement, pad, la, tag, with_measure)
+    gref, k, pi, placement, pad, la, tag, wm = case
+    seed = core.seed_from_env()
+    n, edges, directed = _graph_of(gref)
+    style = gref[1] % 2
+    pat = _B["patterns"][pi]
+    G = _device_graph(n, edges, directed, style)
+    lq = [_logical(style, j) for j in range(k)]
+    ops = []
+    for pos, (i, j) in enumerate(pat):
+        ops.append(_mk_op(_PATTERN_KINDS[(pos + pi) % 4], [lq[i], lq[j]], seed))
+        if pos == 0:
+            ops.append(cirq.H(lq[i]))
+    if wm:
+        ops.append(cirq.measure(*lq))
+    circuit = cirq.Circuit(ops)
+    und = [tuple(e) for e in edges]
+    if not pad and not _valid_unpadded(n, und, placement, pat):
+        return Res(skipped=True, nontrivial=False)  # initial-mapper precondition (documented in AbstractInitialMapper)
+    m = _hardcoded(n, k, placement, bool(pad), style)
+    return _check_routing(G, directed, circuit, la, bool(tag), cirq.HardCodedInitialMapper(m), f"HardCoded{m}", seed, len(pat))
+
+
+def _k_of_pattern(pat):
+    return 1 + max(max(p) for p in pat)
+
+
+def _cases_route_letters(tier):
+    _init_b(tier)
+    cases = []
+    Lmax = 3 if tier == "thorough" else 2
+    for gi, (n, edges) in enumerate(_B["graphs"]):
+        if n > 5:
+            continue
+        k = min(4, n)
+        nl = len(_route_letters(k, 0))
+        for L in range(0, Lmax + 1):
+            for seq in itertools.product(range(nl), repeat=L):
+                if L == 3:
+                    combos = ((0, 8, 0), (1, 1, 1))
+                else:
+                    combos = ((0, 8, 0), (0, 1, 1), (1, 2, 1), (2, 8, 0)) if tier == "quick" else \
+                        tuple((m, la, t) for m in (0, 1, 2) for la in (1, 2, 8) for t in (0, 1))
+                for mid, la, tag in combos:
+                    cases.append((("u", gi), k, tuple(seq), mid, la, tag))
+    cases.sort(key=lambda c: (len(c[2]), c[0][1]))
+    return cases
+
+
+def _cases_route_placements(tier, directed):
+    _init_b(tier)
+    thorough = tier == "thorough"
+    _B["patterns"] = _patterns(4 if thorough else 3, 4)
+    pats = _B["patterns"]
+    cases = []
+    graphs = _B["digraphs"] if directed else _B["graphs"]
+    for gi, (n, edges) in enumerate(graphs):
+        for pi, pat in enumerate(pats):
+            k = _k_of_pattern(pat)
+            if k > n:
+                continue
+            plen = len(pat)
+            if directed:
+                if plen > (3 if thorough else 2):
+                    continue
+            elif n == 6:
+                if plen > 2:
+                    continue
+            elif n == 5:
+                if plen > (3 if thorough else 2):
+                    continue
+            else:
+                if plen > (4 if thorough else 3):
+                    continue
+            pls = _placements(n, k)
+            for qi, pl in enumerate(pls):
+                for pad in (1, 0):
+                    if not pad and k == n:
+                        continue
+                    for la in (1, 2, 8):
+                        tag = (qi + pi + la) % 2
+                        wm = (qi + pi) % 3 == 0
+                        cases.append((("d" if directed else "u", gi), k, pi, tuple(pl), pad, la, tag, int(wm)))
+    cases.sort(key=lambda c: (len(pats[c[2]]), c[0][1]))
+    return cases
+
+
+def _run_route_default_directed(case):
+    """Default LineInitialMapper on digraphs (strongly connected or not)."""
+    gi, pi, la = case
+    seed = core.seed_from_env()
+    n, arcs = _B["digraphs"][gi]
+    style = gi % 2
+    pat = _B["patterns"][pi]
+    k = _k_of_pattern(pat)
+    G = _device_graph(n, arcs, True, style)
+    lq = [_logical(style, j) for j in range(k)]
+    ops = [_mk_op(_PATTERN_KINDS[(pos + pi) % 4], [lq[i], lq[j]], seed) for pos, (i, j) in enumerate(pat)]
+    circuit = cirq.Circuit(ops)
+    try:
+        return _check_routing(G, True, circuit, la, True, None, "default LineInitialMapper", seed, len(pat))
+    except nx.NetworkXError as e:
+        return bad(f"RouteCQC with its default initial mapper raised NetworkXError ({e}) on a weakly connected directed device "
+                   f"graph nodes={sorted(G.nodes)} arcs={sorted(G.edges)} (the class documents that directed graphs are routed "
+                   f"as if undirected)\ncircuit:\n{circuit}", kind="default_mapper_digraph")
+    except ValueError as e:
+        if "No available physical qubits" in str(e):
+            return bad(f"default LineInitialMapper found no physical qubit ({e}) on a weakly connected directed device graph "
+                       f"nodes={sorted(G.nodes)} arcs={sorted(G.edges)} with {k} logical qubits\ncircuit:\n{circuit}",
+                       kind="default_mapper_digraph")
+        raise
+
+
+# --- MappingManager driven directly by all swap sequences ------------------------------------------------------
+
+
+def _bfs_dist(adj, s, t):
+    if s == t:
+        return 0
+    seen = {s}
+    frontier = [s]
+    d = 0
+    while frontier:
+        d += 1
+        nxt = []
+        for u in frontier:
+            for v in adj.get(u, ()):
+                if v not in seen:
+                    if v == t:
+                        return d
+                    seen.add(v)
+                    nxt.append(v)
+        frontier = nxt
+    return float("inf")
+
+
+def _run_mapping_manager(case):
+    gref, placement = case
+    n, edges, directed = _graph_of(gref)
+    style = gref[1] % 2
+    G = _device_graph(n, edges, directed, style)
+    k = len(placement)
+    lq = [_logical(style, j) for j in range(k)]
+    init = {lq[j]: _phys(style, placement[j]) for j in range(k)}
+    mm = cirq.transformers.routing.mapping_manager.MappingManager(G, dict(init))
+    pset = set(placement)
+    adj_d = collections.defaultdict(set)  # directed adjacency in the induced subgraph
+    adj_u = collections.defaultdict(set)
+    for u, v in edges:
+        if u in pset and v in pset:
+            adj_d[u].add(v)
+            adj_u[u].add(v)
+            adj_u[v].add(u)
+            if not directed:
+                adj_d[v].add(u)
+    node_of = {_phys(style, v): v for v in range(n)}
+    l2p = {j: placement[j] for j in range(k)}  # model: logical index -> node
+    li = {q: mm.logical_qid_to_int[q] for q in lq}
+    counters = {"states": 0, "swaps": 0, "rejected_swaps": 0}
+
+    def check_state(path):
+        counters["states"] += 1
+        where = f"graph n={n} edges={edges} directed={directed} placement={placement} swaps={path}"
+        # maps mutually inverse and equal to the model
+        for j in range(k):
+            pj = mm.logical_to_physical[li[lq[j]]]
+            if mm.physical_to_logical[pj] != li[lq[j]]:
+                return f"logical_to_physical / physical_to_logical are not mutually inverse at logical {lq[j]}: {where}"
+            if node_of[mm.int_to_physical_qid[pj]] != l2p[j]:
+                return f"logical {lq[j]} is mapped to {mm.int_to_physical_qid[pj]} but the swaps put it on node {l2p[j]}: {where}"
+            op = mm.mapped_op(cirq.X(lq[j]))
+            if node_of[op.qubits[0]] != l2p[j]:
+                return f"mapped_op sends {lq[j]} to {op.qubits[0]}, expected node {l2p[j]}: {where}"
+        for i in range(k):
+            for j in range(k):
+                if i == j:
+                    continue
+                a, b = li[lq[i]], li[lq[j]]
+                want = _bfs_dist(adj_d, l2p[i], l2p[j])
+                got = mm.dist_on_device(a, b)
+                if got != want:
+                    return f"dist_on_device({lq[i]},{lq[j]})={got}, BFS distance in the induced subgraph={want}: {where}"
+                want_u = _bfs_dist(adj_u, l2p[i], l2p[j])
+                got_u = mm.dist_on_device(a, b, undirected=True)
+                if got_u != want_u:
+                    return f"dist_on_device({lq[i]},{lq[j]},undirected=True)={got_u}, BFS={want_u}: {where}"
+                if bool(mm.is_adjacent(a, b)) != (l2p[j] in adj_d[l2p[i]]):
+                    return f"is_adjacent({lq[i]},{lq[j]})={mm.is_adjacent(a, b)} but adjacency is {l2p[j] in adj_d[l2p[i]]}: {where}"
+                if want_u != float("inf"):
+                    sp = list(mm.shortest_path(a, b, undirected=True))
+                    nodes = [l2p[[li[q] for q in lq].index(x)] for x in sp]
+                    ok = (len(sp) == want_u + 1 and nodes[0] == l2p[i] and nodes[-1] == l2p[j]
+                          and all(nodes[t + 1] in adj_u[nodes[t]] for t in range(len(nodes) - 1)))
+                    if not ok:
+                        return f"shortest_path({lq[i]},{lq[j]},undirected=True)={sp} (nodes {nodes}) is not a shortest path: {where}"
+        return None
+
+    def rec(path, depth):
+        msg = check_state(path)
+        if msg:
+            return msg
+        if depth == 3:
+            return None
+        for i, j in itertools.combinations(range(k), 2):
+            a, b = li[lq[i]], li[lq[j]]
+            adjacent = l2p[j] in adj_u[l2p[i]]
+            before = (tuple(mm.logical_to_physical), tuple(mm.physical_to_logical))
+            try:
+                mm.apply_swap(a, b)
+                raised = False
+            except ValueError:
+                raised = True
+            if raised == adjacent:
+                return (f"apply_swap({lq[i]},{lq[j]}) {'raised' if raised else 'did not raise'} although the qubits are "
+                        f"{'adjacent' if adjacent else 'not adjacent'}: graph n={n} edges={edges} placement={placement} swaps={path}")
+            if raised:
+                counters["rejected_swaps"] += 1
+                if (tuple(mm.logical_to_physical), tuple(mm.physical_to_logical)) != before:
+                    return f"rejected apply_swap changed the mapping: graph n={n} edges={edges} placement={placement} swaps={path}"
+                continue
+            counters["swaps"] += 1
+            l2p[i], l2p[j] = l2p[j], l2p[i]
+            msg = rec(path + [(i, j)], depth + 1)
+            if msg:
+                return msg
+            mm.apply_swap(a, b)  # a swap is an involution: undo
+            l2p[i], l2p[j] = l2p[j], l2p[i]
+        return None
+
+    msg = rec([], 0)
+    if msg:
+        return bad(msg, kind="mapping_manager")
+    return good(nontrivial=counters["swaps"] > 0, mm_states=counters["states"], mm_swaps=counters["swaps"],
+                mm_rejected_swaps=counters["rejected_swaps"])
+
+
+def _cases_mapping_manager(tier):
+    _init_b(tier)
+    cases = []
+    for kind, graphs in (("u", _B["graphs"]), ("d", _B["digraphs"])):
+        for gi, (n, edges) in enumerate(graphs):
+            ks = [n] if n >= 5 else list(range(2, n + 1))
+            for k in ks:
+                pls = _placements(n, k, limit=24 if tier == "quick" else 120)
+                for pl in pls:
+                    cases.append(((kind, gi), tuple(pl)))
+    return cases
+
+
+# =============================================================================================
+# (c) device acceptance
+# =============================================================================================
+
+_C = {}
+
+# --- GridDevice from enumerated DeviceSpecification protos ----------------------------------------------------
+
+GRID_KINDS = ("syc", "sqrt_iswap", "sqrt_iswap_inv", "cz", "cz_pow_gate", "phased_xz", "virtual_zpow", "physical_zpow",
+              "coupler_pulse", "meas", "wait", "fsim_via_model", "two_pulse_fsim", "internal_gate", "reset",
+              "analog_detune_qubit", "analog_detune_coupler_only", "wait_gate_with_unit")
+
+GRIDS = {
+    0: (2, 2),
+    1: (2, 3),
+}
+
+
+def _grid_nodes(grid):
+    r, c = GRIDS[grid]
+    return [(i, j) for i in range(r) for j in range(c)]
+
+
+def _grid_edges(grid):
+    nodes = _grid_nodes(grid)
+    out = []
+    for (i, j) in nodes:
+        if (i, j + 1) in nodes:
+            out.append(((i, j), (i, j + 1)))
+        if (i + 1, j) in nodes:
+            out.append(((i, j), (i + 1, j)))
+    return out
+
+
+def _grid_letters(seed):
+    """(name, gate/op factory on qubits, arity, variadic?, set of spec gate kinds that accept it) -- the acceptance table is
+    written from the DeviceSpecification / GridDevice documentation, not computed by Cirq."""
+    g = core.generic(seed)
+    g2 = core.generic(seed, 1)
+    pz = cirq_google.PhysicalZTag()
+    L = [
+        ("X", lambda q: cirq.X(*q), 1, False, {"phased_xz"}),
+        ("X^g", lambda q: (cirq.X ** g)(*q), 1, False, {"phased_xz"}),
+        ("Y^.5", lambda q: (cirq.Y ** 0.5)(*q), 1, False, {"phased_xz"}),
+        ("H", lambda q: cirq.H(*q), 1, False, {"phased_xz"}),
+        ("I", lambda q: cirq.I(*q), 1, False, {"phased_xz"}),
+        ("PhX", lambda q: cirq.PhasedXPowGate(phase_exponent=g, exponent=0.3)(*q), 1, False, {"phased_xz"}),
+        ("PhXZ", lambda q: cirq.PhasedXZGate(x_exponent=0.2, z_exponent=g, axis_phase_exponent=0.1)(*q), 1, False, {"phased_xz"}),
+        ("Z^g", lambda q: (cirq.Z ** g)(*q), 1, False, {"virtual_zpow"}),
+        ("Z^g[PhysicalZ]", lambda q: (cirq.Z ** g)(*q).with_tags(pz), 1, False, {"physical_zpow"}),
+        ("X[PhysicalZ]", lambda q: cirq.X(*q).with_tags(pz), 1, False, {"phased_xz"}),
+        ("M1", lambda q: cirq.MatrixGate(E.generic_unitary(2, seed))(*q), 1, False, set()),
+        ("reset", lambda q: cirq.ResetChannel()(*q), 1, False, {"reset"}),
+        ("meas1", lambda q: cirq.measure(*q, key="a"), 1, True, {"meas"}),
+        ("wait1", lambda q: cirq.WaitGate(cirq.Duration(nanos=10))(*q), 1, True, {"wait"}),
+        ("internal1", lambda q: cirq_google.InternalGate(gate_name="G", gate_module="m", num_qubits=1)(*q), 1, False, {"internal_gate"}),
+        ("CZ", lambda q: cirq.CZ(*q), 2, False, {"cz", "cz_pow_gate"}),
+        ("CZ^.5", lambda q: (cirq.CZ ** 0.5)(*q), 2, False, {"cz_pow_gate"}),
+        ("CZ^g", lambda q: (cirq.CZ ** g)(*q), 2, False, {"cz_pow_gate"}),
+        ("FSim(0,pi)", lambda q: cirq.FSimGate(0, np.pi)(*q), 2, False, {"cz"}),
+        ("SQRT_ISWAP", lambda q: cirq.SQRT_ISWAP(*q), 2, False, {"sqrt_iswap"}),
+        ("FSim(-pi/4,0)", lambda q: cirq.FSimGate(-np.pi / 4, 0)(*q), 2, False, {"sqrt_iswap"}),
+        ("SQRT_ISWAP_INV", lambda q: cirq.SQRT_ISWAP_INV(*q), 2, False, {"sqrt_iswap_inv"}),
+        ("SYC", lambda q: cirq_google.SYC(*q), 2, False, {"syc"}),
+        ("FSim(pi/2,pi/6)", lambda q: cirq.FSimGate(np.pi / 2, np.pi / 6)(*q), 2, False, {"syc"}),
+        ("ISWAP", lambda q: cirq.ISWAP(*q), 2, False, set()),
+        ("CNOT", lambda q: cirq.CNOT(*q), 2, False, set()),
+        ("FSim(g,g')", lambda q: cirq.FSimGate(g, g2)(*q), 2, False, set()),
+        ("FSim(g,g')[via_model]", lambda q: cirq.FSimGate(g, g2)(*q).with_tags(cirq_google.FSimViaModelTag()), 2, False, {"fsim_via_model"}),
+        ("FSim(g,g')[two_pulse]", lambda q: cirq.FSimGate(g, g2)(*q).with_tags(cirq_google.TwoPulseFSimTag()), 2, False, {"two_pulse_fsim"}),
+        ("meas2", lambda q: cirq.measure(*q, key="b"), 2, True, {"meas"}),
+        ("wait2", lambda q: cirq.WaitGate(cirq.Duration(nanos=10), num_qubits=2)(*q), 2, True, {"wait"}),
+        ("meas3", lambda q: cirq.measure(*q, key="c"), 3, True, {"meas"}),
+        ("CCZ", lambda q: cirq.CCZ(*q), 3, False, set()),
+    ]
+    return L
+
+
+def _kind_sets(tier):
+    """Enumerated gate-kind subsets (as tuples of indices into GRID_KINDS)."""
+    nk = len(GRID_KINDS)
+    small = [()] + [(i,) for i in range(nk)] + list(itertools.combinations(range(nk), 2)) + [tuple(range(nk))]
+    return small
+
+
+def _make_spec(grid, qmask, pmask, kinds):
+    nodes = _grid_nodes(grid)
+    edges = _grid_edges(grid)
+    qs = [nodes[i] for i in range(len(nodes)) if qmask >> i & 1]
+    pairs = [edges[i] for i in range(len(edges)) if pmask >> i & 1]
+    spec = v2.device_pb2.DeviceSpecification()
+    # valid_qubits listed in a scrambled order (order must not matter)
+    order = sorted(qs, key=lambda q: ((q[0] * 7 + q[1] * 3) % 5, q))
+    spec.valid_qubits.extend(f"{r}_{c}" for r, c in order)
+    ts = spec.valid_targets.add()
+    ts.name = "2_qubit_targets"
+    ts.target_ordering = v2.device_pb2.TargetSet.SYMMETRIC
+    for i, (u, v) in enumerate(pairs):
+        t = ts.targets.add()
+        a, b = (u, v) if i % 2 == 0 else (v, u)  # id order inside a SYMMETRIC target must not matter
+        t.ids.extend([f"{a[0]}_{a[1]}", f"{b[0]}_{b[1]}"])
+    ms = spec.valid_targets.add()
+    ms.name = "meas_targets"
+    ms.target_ordering = v2.device_pb2.TargetSet.SUBSET_PERMUTATION
+    for q in qs:
+        t = ms.targets.add()
+        t.ids.append(f"{q[0]}_{q[1]}")
+    for ki in kinds:
+        gsp = spec.valid_gates.add()
+        getattr(gsp, GRID_KINDS[ki]).SetInParent()
+        gsp.gate_duration_picos = 1000 * (ki + 1)
+    return spec, qs, pairs
+
+
+def _grid_placements(grid, arity):
+    """Qubit tuples a letter of the arity is placed on: all grid nodes / ordered node pairs, plus an off-grid qubit."""
+    nodes = _grid_nodes(grid)
+    off = (5, 5)
+    if arity == 1:
+        return [(q,) for q in nodes] + [(off,)]
+    if arity == 2:
+        return list(itertools.permutations(nodes, 2)) + [(nodes[0], off), (off, nodes[-1])]
+    n3 = nodes[:3]
+    return [tuple(n3), (nodes[-1], nodes[0], nodes[1]), (nodes[0], nodes[1], off)]
+
+
+def _accepts(fn):
+    try:
+        fn()
+        return True, None
+    except (ValueError, NotImplementedError) as e:  # the documented rejection signals
+        return False, e
+
+
+def _run_grid_device(case):
+    grid, qmask, pmask, ksi = case
+    seed = core.seed_from_env()
+    kinds = _C["kind_sets"][ksi]
+    spec, qs, pairs = _make_spec(grid, qmask, pmask, kinds)
+    spec_bytes = spec.SerializeToString()
+    dev = cirq_google.GridDevice.from_proto(spec)
+    if spec.SerializeToString() != spec_bytes:
+        return bad("GridDevice.from_proto modified the specification", kind="grid_spec_modified")
+    kindnames = {GRID_KINDS[k] for k in kinds}
+    qset = set(qs)
+    pset = {frozenset(p) for p in pairs}
+    where = f"spec: qubits={sorted(qs)} pairs={pairs} gates={sorted(kindnames)}"
+    # metadata agrees with the spec
+    md = dev.metadata
+    if set(md.qubit_set) != {cirq.GridQubit(*q) for q in qs}:
+        return bad(f"metadata.qubit_set {sorted(md.qubit_set)} differs from the specification: {where}", kind="grid_metadata")
+    if set(md.qubit_pairs) != {frozenset(cirq.GridQubit(*q) for q in p) for p in pset}:
+        return bad(f"metadata.qubit_pairs {md.qubit_pairs} differs from the specification: {where}", kind="grid_metadata")
+    L = _C["grid_letters"]
+    n_acc = n_rej = 0
+    placed = []  # (op, expected) for the circuit-level check
+    for name, mk, arity, variadic, by in L:
+        gate_ok = bool(by & kindnames)
+        for pl in _grid_placements(grid, arity):
+            op = mk([cirq.GridQubit(*q) for q in pl])
+            on_dev = all(q in qset for q in pl)
+            pair_ok = True
+            if arity == 2 and not variadic:
+                pair_ok = frozenset(pl) in pset
+            want = gate_ok and on_dev and pair_ok
+            got, err = _accepts(lambda: dev.validate_operation(op))
+            if got != want:
+                return bad(f"GridDevice.validate_operation({op!r}) {'accepted' if got else f'rejected ({err})'}; reference: gate in "
+                           f"gateset={gate_ok}, qubits on device={on_dev}, pair allowed={pair_ok}: {where}", kind="grid_validate_op",
+                           letter=name)
+            in_gs = op in md.gateset
+            if in_gs != gate_ok:
+                return bad(f"`{op!r} in metadata.gateset` is {in_gs}, the specification implies {gate_ok}: {where}",
+                           kind="grid_gateset", letter=name)
+            n_acc += got
+            n_rej += not got
+            placed.append((op, want, name))
+    # validate_circuit <=> all ops accepted.  Reduced list: every letter once accepted / once rejected; circuits = each
+    # reduced op alone, and before / after every op of a small accepted core (first accepted op of each arity)
+    red = {}
+    for op, want, name in placed:
+        red.setdefault((name, want), (op, want))
+    red = list(red.values())
+    acc_core = {}
+    for op, want, name in placed:
+        if want:
+            acc_core.setdefault(len(op.qubits), (op, want))
+    acc_core = list(acc_core.values())
+    rej_core = {}
+    for op, want, name in placed:
+        if not want:
+            rej_core.setdefault(len(op.qubits), (op, want))
+    circs = [((o, w),) for o, w in red]
+    for o, w in red:
+        for o2, w2 in acc_core + list(rej_core.values())[:1]:
+            circs.append(((o, w), (o2, w2)))
+            circs.append(((o2, w2), (o, w)))
+    n_circ = 0
+    for items in circs:
+        circ = cirq.Circuit(o for o, _w in items)
+        want = all(w for _o, w in items)
+        got, err = _accepts(lambda: dev.validate_circuit(circ))
+        n_circ += 1
+        if got != want:
+            return bad(f"GridDevice.validate_circuit {'accepted' if got else f'rejected ({err})'} a circuit whose ops are "
+                       f"individually {[w for _o, w in items]}:\n{circ}\n{where}", kind="grid_validate_circuit")
+    for o1, w1 in red:
+        got_m, err = _accepts(lambda: dev.validate_moment(cirq.Moment(o1)))
+        if got_m != w1:
+            return bad(f"GridDevice.validate_moment(Moment({o1!r})) gave {got_m}, expected {w1}: {where}", kind="grid_validate_moment")
+    return good(nontrivial=n_acc > 0 and n_rej > 0, ops_accepted=n_acc, ops_rejected=n_rej, circuits=n_circ)
+
+
+def _cases_grid(tier):
+    _C["kind_sets"] = _kind_sets(tier)
+    ks = _C["kind_sets"]
+    nk = len(GRID_KINDS)
+    full = len(ks) - 1
+    cases = []
+    grids = (0,) if tier == "quick" else (0, 1)
+    for grid in grids:
+        nodes = _grid_nodes(grid)
+        edges = _grid_edges(grid)
+        for qmask in range(1, 1 << len(nodes)):
+            inside = [i for i, (u, v) in enumerate(edges)
+                      if qmask >> nodes.index(u) & 1 and qmask >> nodes.index(v) & 1]
+            for sub in range(1 << len(inside)):
+                pmask = 0
+                for t, ei in enumerate(inside):
+                    if sub >> t & 1:
+                        pmask |= 1 << ei
+                if grid == 0 and qmask == 0b1111 and sub == (1 << len(inside)) - 1:
+                    ksel = range(len(ks))  # full 2x2 grid: also every pair of gate kinds
+                else:
+                    # topology enumeration with the empty, singleton and full gate sets
+                    ksel = list(range(0, nk + 1)) + [full]
+                for ksi in ksel:
+                    cases.append((grid, qmask, pmask, ksi))
+    if tier == "thorough":
+        # every subset of a 12-kind core on one fixed topology (full 2x2 grid, three of its four pairs)
+        core12 = (0, 1, 2, 3, 4, 5, 6, 7, 9, 10, 11, 14)
+        base = len(ks)
+        for m in range(1 << len(core12)):
+            sel = tuple(core12[i] for i in range(len(core12)) if m >> i & 1)
+            if len(sel) <= 2:
+                continue  # already in the small list
+            ks.append(sel)
+        for ksi in range(base, len(ks)):
+            cases.append((0, 0b1111, 0b0111, ksi))
+    return cases
+
+
+# --- vendor devices ----------------------------------------------------------------------------------------------
+
+
+def _vendor_letters(seed):
+    """(name, factory(qubits)->op, arity, is_measurement, docs: which vendor gatesets accept)."""
+    g = core.generic(seed)
+    U1 = E.generic_unitary(2, seed)
+    L = [
+        ("X^g", lambda q: (cirq.X ** g)(*q), 1, {"ionq", "pasqal", "pasqal_virtual"}),
+        ("Z^g", lambda q: (cirq.Z ** g)(*q), 1, {"ionq", "aqt", "pasqal", "pasqal_virtual"}),
+        ("H", lambda q: cirq.H(*q), 1, {"ionq", "pasqal", "pasqal_virtual"}),
+        ("PhX", lambda q: cirq.PhasedXPowGate(phase_exponent=g, exponent=0.3)(*q), 1, {"aqt", "pasqal", "pasqal_virtual"}),
+        ("M1", lambda q: cirq.MatrixGate(U1)(*q), 1, set()),
+        ("PhXZ", lambda q: cirq.PhasedXZGate(x_exponent=0.2, z_exponent=g, axis_phase_exponent=0.1)(*q), 1, set()),
+        ("meas1(a)", lambda q: cirq.measure(*q, key="a"), 1, {"ionq", "aqt", "pasqal", "pasqal_virtual"}),
+        ("meas1(b)", lambda q: cirq.measure(*q, key="b"), 1, {"ionq", "aqt", "pasqal", "pasqal_virtual"}),
+        ("XX^g", lambda q: (cirq.XX ** g)(*q), 2, {"ionq", "aqt"}),
+        ("ZZ^g", lambda q: (cirq.ZZ ** g)(*q), 2, {"ionq"}),
+        ("CNOT", lambda q: cirq.CNOT(*q), 2, {"ionq", "pasqal"}),
+        ("SWAP", lambda q: cirq.SWAP(*q), 2, {"ionq"}),
+        ("CZ", lambda q: cirq.CZ(*q), 2, {"pasqal", "pasqal_virtual"}),
+        ("CZ^-1", lambda q: (cirq.CZ ** -1.0)(*q), 2, {"pasqal", "pasqal_virtual"}),
+        ("CZ^.5", lambda q: (cirq.CZ ** 0.5)(*q), 2, set()),
+        ("ISWAP", lambda q: cirq.ISWAP(*q), 2, set()),
+        ("meas2(a)", lambda q: cirq.measure(*q, key="a"), 2, {"ionq", "aqt", "pasqal", "pasqal_virtual"}),
+        ("CCZ", lambda q: cirq.CCZ(*q), 3, {"pasqal"}),
+        ("CSWAP", lambda q: cirq.CSWAP(*q), 3, set()),
+    ]
+    return L
+
+
+def _vendor_devices():
+    """(name, family, device factory, on-device qubits, off-device qubits (same type), controlled-pair rule or None)."""
+    out = []
+    for n in (1, 2, 3):
+        qs = cirq.LineQubit.range(n)
+        out.append((f"IonQAPIDevice({n})", "ionq", lambda n=n: cirq_ionq.IonQAPIDevice(n), qs, [cirq.LineQubit(7)], None))
+        out.append((f"get_aqt_device({n})", "aqt", lambda n=n: aqt_device_mod.get_aqt_device(n)[0], qs, [cirq.LineQubit(7)], None))
+        nq = [cirq.NamedQubit(f"q{i}") for i in range(n)]
+        out.append((f"PasqalDevice({n} named)", "pasqal", lambda nq=nq: cirq_pasqal.PasqalDevice(nq), nq, [cirq.NamedQubit("zz")], None))
+    line = cirq.LineQubit.range(4)
+    for r in (0.0, 1.0, 2.0, 3.0):
+        out.append((f"PasqalVirtualDevice(r={r}, line4)", "pasqal_virtual",
+                    lambda r=r: cirq_pasqal.PasqalVirtualDevice(r, line), line, [cirq.LineQubit(9)],
+                    (r, lambda p, q: abs(p.x - q.x))))
+    grid = cirq.GridQubit.rect(2, 2)
+    for r in (1.0, 1.5, 2.0):
+        out.append((f"PasqalVirtualDevice(r={r}, grid2x2)", "pasqal_virtual",
+                    lambda r=r: cirq_pasqal.PasqalVirtualDevice(r, grid), grid, [cirq.GridQubit(4, 4)],
+                    (r, lambda p, q: ((p.row - q.row) ** 2 + (p.col - q.col) ** 2) ** 0.5)))
+    td = [cirq_pasqal.TwoDQubit(0, 0), cirq_pasqal.TwoDQubit(1, 0), cirq_pasqal.TwoDQubit(0, 2)]
+    for r in (1.0, 2.0, 2.5, 3.0):
+        out.append((f"PasqalVirtualDevice(r={r}, 2D)", "pasqal_virtual",
+                    lambda r=r: cirq_pasqal.PasqalVirtualDevice(r, td), td, [cirq_pasqal.TwoDQubit(9, 9)],
+                    (r, lambda p, q: ((p.x - q.x) ** 2 + (p.y - q.y) ** 2) ** 0.5)))
+    return out
+
+
+def _vendor_expected_op(fam, accepted_by, op, qs_on, rule, pl):
+    gate_ok = fam in accepted_by
+    on_dev = all(q in qs_on for q in pl)
+    pair_ok = True
+    if rule is not None and isinstance(op.gate, cirq.CZPowGate) and gate_ok and on_dev:
+        r, dist = rule
+        pair_ok = all(dist(p, q) <= r for p in pl for q in pl)
+    return gate_ok, on_dev, pair_ok
+
+
+def _run_vendor_device(case):
+    di = case
+    seed = core.seed_from_env()
+    name, fam, mk_dev, qs_on, qs_off, rule = _vendor_devices()[di]
+    dev = mk_dev()
+    L = _vendor_letters(seed)
+    allq = list(qs_on) + list(qs_off)
+    gateset = dev.metadata.gateset if fam == "aqt" else dev.gateset
+    placed = []
+    n_acc = n_rej = 0
+    for lname, mk, arity, by in L:
+        if arity > len(allq):
+            continue
+        for pl in itertools.permutations(allq, arity):
+            op = mk(list(pl))
+            gate_ok, on_dev, pair_ok = _vendor_expected_op(fam, by, op, qs_on, rule, pl)
+            want = gate_ok and on_dev and pair_ok
+            got, err = _accepts(lambda: dev.validate_operation(op))
+            if (op in gateset) != gate_ok:
+                return bad(f"{name}: `{op!r} in device gateset` is {op in gateset}; the device documentation implies {gate_ok}",
+                           kind="vendor_gateset", device=fam, letter=lname)
+            if got != want:
+                return bad(f"{name}.validate_operation({op!r}) {'accepted' if got else f'rejected ({err})'}; reference: gate in gateset="
+                           f"{gate_ok}, all qubits on device={on_dev} (device qubits {list(qs_on)}), pair allowed={pair_ok}",
+                           kind="vendor_validate_op", device=fam, reason=("gate" if not gate_ok else "qubits" if not on_dev else "pair"))
+            n_acc += got
+            n_rej += not got
+            placed.append((op, want, lname))
+    # documented extra op-level rules
+    if fam in ("pasqal", "pasqal_virtual"):
+        op = cirq.measure(qs_on[0], key="a", invert_mask=(True,))
+        got, err = _accepts(lambda: dev.validate_operation(op))
+        if got or not isinstance(err, NotImplementedError):
+            return bad(f"{name}: measurement with invert_mask must raise NotImplementedError (documented), got accepted={got} err={err!r}",
+                       kind="vendor_rule", device=fam)
+    if fam == "ionq":
+        got, err = _accepts(lambda: dev.validate_operation(cirq.CircuitOperation(cirq.FrozenCircuit(cirq.X(qs_on[0])))))
+        if got:
+            return bad(f"{name} accepted an operation without a gate", kind="vendor_rule", device=fam)
+    # circuits: every ordered pair from a reduced list (each letter once accepted / once rejected per reason), two layouts:
+    # (0) both ops appended with EARLIEST, (1) one op per moment
+    red = {}
+    for op, want, lname in placed:
+        red.setdefault((lname, want, len(op.qubits) if not want else 0), (op, want))
+    red = list(red.values())
+    n_circ = 0
+    for (o1, w1), (o2, w2) in itertools.product(red, repeat=2):
+        for layout in (0, 1):
+            try:
+                circ = cirq.Circuit(o1, o2) if layout == 0 else cirq.Circuit(cirq.Moment(o1), cirq.Moment(o2))
+            except ValueError:
+                continue
+            want = w1 and w2
+            why = "all ops individually accepted" if want else "an op is individually rejected"
+            if want:
+                m1, m2 = cirq.is_measurement(o1), cirq.is_measurement(o2)
+                if fam == "aqt" and m1 and m2 and cirq.measurement_key_name(o1) == cirq.measurement_key_name(o2):
+                    want, why = False, "AQT: measurement keys must be unique"
+                if fam in ("pasqal", "pasqal_virtual"):
+                    # a non-empty moment after a moment holding a measurement is invalid
+                    seen_m = False
+                    for mom in circ:
+                        if seen_m and len(mom) > 0:
+                            want, why = False, "Pasqal: non-empty moment after a measurement"
+                        if any(cirq.is_measurement(o) for o in mom):
+                            seen_m = True
+                if fam == "pasqal_virtual":
+                    for mom in circ:
+                        if len(mom) > 1 and not all(cirq.is_measurement(o) for o in mom):
+                            want, why = False, "PasqalVirtualDevice: simultaneous non-measurement gates"
+            got, err = _accepts(lambda: dev.validate_circuit(circ))
+            n_circ += 1
+            if got != want:
+                return bad(f"{name}.validate_circuit {'accepted' if got else f'rejected ({err})'}; reference says "
+                           f"{'accept' if want else 'reject'} ({why}):\n{circ}", kind="vendor_validate_circuit", device=fam)
+    return good(nontrivial=n_acc > 0 and n_rej > 0, ops_accepted=n_acc, ops_rejected=n_rej, circuits=n_circ)
+
+
+def _init_c(seed):
+    if _C.get("seed") != seed:
+        _C["seed"] = seed
+        _C["grid_letters"] = _grid_letters(seed)
+
+
+# =============================================================================================
+
+
+def _timed(fn):
+    """Adds the CPU seconds of each case as a counter (the machine is shared: wall time says little)."""
+    import time
+
+    def run(case):
+        t0 = time.process_time()
+        r = fn(case)
+        dt = time.process_time() - t0
+        if r is None:
+            r = good()
+        if isinstance(r, Res):
+            r.counters = dict(r.counters or {})
+            r.counters["cpu_s"] = dt
+        return r
+
+    return run
+
+
 def stages(tier, seed):
     _init_a(seed)
+    _init_b(tier)
+    _init_c(seed)
     st = []
     nrows = len(_membership_table(seed))
     st.append(CaseStage("a0_gateset_membership", [(gi, ri) for gi in range(len(_A["GS"])) for ri in range(nrows)],
-                        _run_membership))
-    st.append(CaseStage("a1_compile_fast_targets", _cases_compile(tier, seed, slow=False), _run_compile,
+                        _timed(_run_membership)))
+    st.append(CaseStage("a1_compile_fast_targets", _cases_compile(tier, seed, slow=False), _timed(_run_compile),
                         describe=_describe_compile))
-    st.append(CaseStage("a2_compile_slow_targets", _cases_compile(tier, seed, slow=True), _run_compile,
+    st.append(CaseStage("a2_compile_slow_targets", _cases_compile(tier, seed, slow=True), _timed(_run_compile),
                         describe=_describe_compile))
+    st.append(CaseStage("b1_route_letter_sequences", _cases_route_letters(tier), _timed(_run_route_letters)))
+    st.append(CaseStage("b2_route_all_placements", _cases_route_placements(tier, False), _timed(_run_route_placements)))
+    st.append(CaseStage("b3_route_directed_graphs", _cases_route_placements(tier, True), _timed(_run_route_placements)))
+    pats2 = [pi for pi, p in enumerate(_B["patterns"]) if len(p) <= 2]
+    st.append(CaseStage("b4_route_directed_default_mapper",
+                        [(gi, pi, la) for gi, (n, _a) in enumerate(_B["digraphs"]) for pi in pats2
+                         if _k_of_pattern(_B["patterns"][pi]) <= n for la in (1, 8)],
+                        _timed(_run_route_default_directed)))
+    st.append(CaseStage("b5_mapping_manager_swap_sequences", _cases_mapping_manager(tier), _timed(_run_mapping_manager)))
+    st.append(CaseStage("c1_grid_device_specs", _cases_grid(tier), _timed(_run_grid_device)))
+    st.append(CaseStage("c2_vendor_devices", list(range(len(_vendor_devices()))), _timed(_run_vendor_device)))
     return st
